@@ -104,6 +104,23 @@ def check_case(ctx, case):
     reply2, prod2, _ = impl.run_asm(op, entities=ents)
     if reply2 != reply:
         ctx.fail("a second consecutive call gives a different result", case)
+    if len(ms) >= 2 and case.get("then_incomplete"):
+        # the same objects in an assembly that cannot be completed (one module left out: MissingModule, or a warning
+        # when it was the last one listed twice): the citation numbers of the inputs read the same afterwards, and
+        # the complete set still assembles to the same product
+        j = case["then_incomplete"] % len(ms)
+        part = (vec, [m for i_, m in enumerate(ms) if i_ != j], ents[2])
+        pop = (op[0], op[1], op[2], op[3], [m for i_, m in enumerate(op[4]) if i_ != j])
+        r_part, _, _ = impl.run_asm(pop, entities=part)
+        after2 = [impl.canon_record(e.record) for e in [vec] + ms]
+        if after2 != before:
+            ctx.fail("after an incomplete assembly ({}) the inputs' citation indices / reference lists changed: {} -> {}".format(
+                r_part.split("\t")[:2], [x for x, y in zip(before, after2) if x != y][:1],
+                [y for x, y in zip(before, after2) if x != y][:1]), case)
+        reply3, _, _ = impl.run_asm(op, entities=ents)
+        if reply3 != reply:
+            ctx.fail("after an incomplete assembly with the same objects, the complete one gives a different result", case)
+        ctx.note("then-incomplete:" + r_part.split("\t")[0])
     ctx.note("product-citations", ncited)
     ctx.case({k: v for k, v in case.items() if k != "info"}, nontrivial=ncited > 0)
     if core.pick(case, 3):
@@ -131,4 +148,6 @@ def run(ctx):
             import copy
             case["mods"].insert(rng.randrange(len(case["mods"]) + 1), copy.deepcopy(rng.choice(case["mods"])))
             case["listed_twice"] = True
+        if rng.random() < 0.4:
+            case["then_incomplete"] = rng.randrange(1, 1000)
         ctx.guard(check_case, case)
